@@ -95,6 +95,11 @@ def scenarios(rnd, tier):
                ["-skip-ensure", "-pkg", "other"], ["-fmt", "bogus"]):
         for out in (None, "gen/mocks/out.go"):
             S.append(dict(srcdir="svc", args=["Good", "Gen"], out=out, rm=True, prior="garbage", flags=fl))
+    # the same directory spelled differently: absolute -out, ./-prefixed source directory
+    for prior in priors:
+        for rm in (False, True):
+            S.append(dict(srcdir="svc", args=["Good", "Other"], out="svc/good_moq.go", rm=rm, prior=prior, flags=[], abs=True))
+            S.append(dict(srcdir="./svc/", args=["Good", "Other"], out="./svc/../svc/good_moq.go", rm=rm, prior=prior, flags=[]))
     S.append(dict(srcdir="svc", args=["Good:1x"], out="svc/good_moq.go", rm=False, prior="own", flags=[]))
     S.append(dict(srcdir="svc", args=["Good:1x"], out=None, rm=False, prior="absent", flags=[]))
     if tier == "thorough":
@@ -107,10 +112,10 @@ def scenarios(rnd, tier):
     return S
 
 
-def moq_cmd(s):
+def moq_cmd(s, root=None):
     a = list(s["flags"])
     if s["out"]:
-        a += ["-out", s["out"]]
+        a += ["-out", os.path.join(root, s["out"]) if (s.get("abs") and root) else s["out"]]
     if s["rm"]:
         a.append("-rm")
     return a + [s["srcdir"]] + s["args"]
@@ -120,7 +125,7 @@ def prime(root, s, own_text):
     """Puts the prior content at the -out path."""
     if not s["out"] or s["prior"] == "absent":
         return
-    p = os.path.join(root, s["out"])
+    p = os.path.normpath(os.path.join(root, s["out"]))
     if s["prior"] == "dirnonempty":
         os.makedirs(p, exist_ok=True)
         open(os.path.join(p, "keep.txt"), "w").write("x")
@@ -137,7 +142,7 @@ def prime(root, s, own_text):
 def run_cli(moq, root, s, timeout=60):
     t0 = time.time()
     try:
-        p = subprocess.run([moq] + moq_cmd(s), cwd=root, env=pool.GOENV, capture_output=True, text=True,
+        p = subprocess.run([moq] + moq_cmd(s, root), cwd=root, env=pool.GOENV, capture_output=True, text=True,
                            timeout=timeout, errors="replace")
         return dict(rc=p.returncode, stdout=p.stdout, stderr=p.stderr, wall=time.time() - t0)
     except subprocess.TimeoutExpired:
@@ -163,7 +168,7 @@ def one(moq, base, s, own_cache):
         r = run_cli(moq, root, s)
         after = snapshot(root)
         verdicts = {}
-        outp = s["out"]
+        outp = os.path.normpath(s["out"]) if s["out"] else None
         changed = sorted(k for k in set(before) | set(after) if before.get(k) != after.get(k))
         # ---- C19
         if r["rc"] is None:
@@ -311,8 +316,19 @@ def _run(cdir, seed, tier, log):
         for o in obs:
             s = o["s"]
             if s["out"] and o["rc"] == 0:
-                groups.setdefault((s["srcdir"], tuple(s["args"]), tuple(s["flags"]), s["out"], s["rm"]), []).append(o)
+                groups.setdefault((s["srcdir"], tuple(s["args"]), tuple(s["flags"]), s["out"], s["rm"], bool(s.get("abs"))), []).append(o)
         nfix = 0
+        rmgroups = {}
+        for o in obs:
+            s = o["s"]
+            if s["out"] and s["rm"] and s["prior"] != "dirnonempty" and o["rc"] in (0, 1):
+                rmgroups.setdefault((s["srcdir"], tuple(s["args"]), tuple(s["flags"]), s["out"], bool(s.get("abs"))), []).append(o)
+        for key, os_ in rmgroups.items():
+            outcomes = {o["prior_kind"]: (o["rc"], o.get("file")) for o in os_}
+            if len(set(outcomes.values())) > 1:
+                res["violations"].append({"id": os_[0]["id"] + "-rmdep", "props": ["C15"],
+                                          "what": "with -rm the outcome depends on what was at the -out path before: %s" % {k: v[0] for k, v in outcomes.items()},
+                                          "scenarios": [o["s"] for o in os_], "stderr": [o["stderr"][:200] for o in os_]})
         for key, os_ in groups.items():
             texts = {o["prior_kind"]: o["file"] for o in os_}
             if key[4]:  # -rm: every prior content must give the same bytes
